@@ -3,6 +3,7 @@ package main
 // Evaluation of specification expressions over a symbolic state.
 
 import (
+	"strconv"
 	"fmt"
 	"os"
 	"sort"
@@ -850,7 +851,13 @@ func (e *Engine) evalCall(x *Expr, se *SpecEnv) Val {
 		e.idxWrap(Term{"x", SInt})
 		return Val{T: nil, L: []Term{arr}}
 	case "actkind", "actobj", "actarg", "actres":
-		i := int(x.Args[0].Int)
+		// the index must evaluate to a literal on this path (e.g. 0, nact - 1)
+		it := e.evalSpec(x.Args[0], se).L[0]
+		iv, okc := constInt(it.S)
+		if !okc {
+			panic(unsupported("%s: the action index %q is not a constant on this path", x.Name, it.S))
+		}
+		i := iv
 		log := se.st.actionLog
 		if se.cur != nil {
 			log = se.cur.actionLog
@@ -905,6 +912,8 @@ func (e *Engine) evalCall(x *Expr, se *SpecEnv) Val {
 		// ctxdone(ctx): the channel ctx.Done() returns
 		cv := arg(0)
 		return Val{T: types.NewChan(types.RecvOnly, types.NewStruct(nil, nil)), L: []Term{e.ctx.App("ctxdone", SInt, cv.L[len(cv.L)-1])}}
+	case "chowner":
+		return mkInt(e.chOwner(arg(0).L[0]))
 	case "envchan":
 		return mkBool(e.chEnv(arg(0).L[0]))
 	case "nacts":
@@ -1304,4 +1313,79 @@ func (e *Engine) logKey(name string, se *SpecEnv) string {
 		return v.Fn.Sym
 	}
 	return name
+}
+
+// constInt evaluates a closed integer term built from literals, + and -.
+func constInt(s string) (int, bool) {
+	s = strings.TrimSpace(s)
+	if n, err := strconv.Atoi(s); err == nil {
+		return n, true
+	}
+	if !strings.HasPrefix(s, "(") || !strings.HasSuffix(s, ")") {
+		return 0, false
+	}
+	inner := strings.TrimSpace(s[1 : len(s)-1])
+	if len(inner) < 2 {
+		return 0, false
+	}
+	op := inner[0]
+	if op != '+' && op != '-' {
+		return 0, false
+	}
+	// split the operands at top level
+	var parts []string
+	depth, start := 0, -1
+	rest := inner[1:]
+	for i, ch := range rest {
+		switch {
+		case ch == '(':
+			if depth == 0 && start < 0 {
+				start = i
+			}
+			depth++
+		case ch == ')':
+			depth--
+			if depth == 0 {
+				parts = append(parts, rest[start:i+1])
+				start = -1
+			}
+		case ch == ' ':
+			if depth == 0 && start >= 0 {
+				parts = append(parts, rest[start:i])
+				start = -1
+			}
+		default:
+			if depth == 0 && start < 0 {
+				start = i
+			}
+		}
+	}
+	if start >= 0 {
+		parts = append(parts, rest[start:])
+	}
+	if len(parts) == 0 {
+		return 0, false
+	}
+	acc, ok := constInt(parts[0])
+	if !ok {
+		return 0, false
+	}
+	if len(parts) == 1 {
+		if op == '-' {
+			return -acc, true
+		}
+		return acc, true
+	}
+	for _, p := range parts[1:] {
+		v, ok := constInt(p)
+		if !ok {
+			return 0, false
+		}
+		if op == '+' {
+			acc += v
+		} else {
+			acc -= v
+		}
+	}
+	return acc, true
 }
